@@ -36,18 +36,18 @@ Lemma lff_spec s : forall i min,
   forall j, i <= j < r -> min <= j -> nth (j - i) s None <> None.
 Proof.
   induction s as [|x s IH]; intros i min; cbn [lowest_free_from].
-  - cbv zeta. repeat split; try lia.
-    all: try (destruct (Nat.max i min - i); reflexivity).
-    all: try (intros; lia).
+  - cbv zeta. split; [lia|]. split; [lia|]. split.
+    + destruct (Nat.max i min - i); reflexivity.
+    + intros j H1 H2. lia.
   - destruct ((min <=? i) && is_none x) eqn:E.
     + cbv zeta. apply andb_true_iff in E as [E1 E2]. apply Nat.leb_le in E1.
-      repeat split; try lia.
+      split; [lia|]. split; [lia|]. split.
       * rewrite Nat.sub_diag. simpl. destruct x; [discriminate|reflexivity].
       * intros j H. lia.
     + specialize (IH (S i) min). cbv zeta in IH |- *.
       destruct IH as (A & B & C & D).
       set (r := lowest_free_from s (S i) min) in *.
-      repeat split; try lia.
+      split; [lia|]. split; [lia|]. split.
       * replace (r - i) with (S (r - S i)) by lia. exact C.
       * intros j H1 H2. destruct (Nat.eq_dec j i) as [->|Hne].
         -- rewrite Nat.sub_diag. simpl. apply andb_false_iff in E as [E|E].
@@ -63,7 +63,7 @@ Proof.
   cbv zeta. unfold lowest_free, get.
   pose proof (lff_spec t 0 min) as H. cbv zeta in H.
   destruct H as (_ & B & C & D).
-  rewrite Nat.sub_0_r in C. repeat split; auto.
+  rewrite Nat.sub_0_r in C. split; [auto|]. split; [auto|].
   intros j Hj. specialize (D j). rewrite Nat.sub_0_r in D. apply D; lia.
 Qed.
 
@@ -86,9 +86,8 @@ Lemma alloc_spec t min f cx t' r :
 Proof.
   unfold alloc. intros H. inversion H; subst. clear H.
   destruct (lowest_free_spec t min) as (A & B & C).
-  repeat split; auto.
-  - apply get_set_same.
-  - intros d Hd. apply get_set_other. auto.
+  split; [auto|]. split; [auto|]. split; [apply get_set_same|]. split; [|auto].
+  intros d Hd. apply get_set_other. auto.
 Qed.
 
 Lemma get_exec t d : get (exec t) d = exec_entry (get t d).
@@ -221,4 +220,194 @@ Proof.
         intros k u Hk Hlt. apply (Hs (S k) u); simpl; auto. lia.
     + destruct (IH (S fd) t) as (t2 & l & E); [lia| |rewrite E; eauto].
       intros k u Hk Hlt. apply (Hs (S k) u); simpl; auto. lia.
+Qed.
+
+(* ------------------------------------------------------------------ *)
+(* C. pass 2                                                            *)
+(* ------------------------------------------------------------------ *)
+Definition nocx (e : entry) : entry := mkE (e_file e) false.
+
+(* what slot [k] must hold when pass 2 is over (before exec) *)
+Definition want (t0 : tbl) (us0 : list (option nat)) (k : nat) : option entry :=
+  match nth k us0 None with
+  | Some u => option_map nocx (get t0 u)
+  | None => if k <? 3 then Some (mkE devnull false) else get t0 k
+  end.
+
+Section Pass2.
+  Variables (sc : nat) (t0 t1 : tbl) (us0 us1 : list (option nat)).
+  Hypothesis Hlen0 : length us0 = sc.
+  Hypothesis Hlen1 : length us1 = sc.
+  Hypothesis Hext : ext sc t0 t1.
+  Hypothesis Hopen : forall k u, nth_error us0 k = Some (Some u) -> get t0 u <> None.
+  Hypothesis Hnone : forall k, nth_error us0 k = Some None -> nth_error us1 k = Some None.
+  Hypothesis Hsome : forall k u, nth_error us0 k = Some (Some u) ->
+     exists u', nth_error us1 k = Some (Some u') /\
+       ((k <= u /\ u' = u) \/
+        (u < k /\ sc <= u' /\
+         exists e, get t0 u = Some e /\ get t1 u' = Some (mkE (e_file e) true))).
+
+  Definition Inv (i : nat) (T : tbl) : Prop :=
+    (forall d, i <= d -> get T d = get t1 d) /\
+    (forall d, d < i -> get T d = want t0 us0 d).
+
+  Lemma want_low d : d < 3 -> d < sc -> want t0 us0 d <> None.
+  Proof.
+    intros H3 Hd. unfold want.
+    destruct (nth d us0 None) as [u|] eqn:E.
+    - assert (nth_error us0 d = Some (Some u)).
+      { rewrite (nth_error_nth' us0 None) by lia. congruence. }
+      apply Hopen in H. destruct (get t0 u); simpl; congruence.
+    - apply Nat.ltb_lt in H3. rewrite H3. discriminate.
+  Qed.
+
+  (* the source of slot k as seen by pass 2 is at or above k, open in t1, and
+     refers to the file the container named *)
+  Lemma slot_some k u' : k < sc -> nth_error us1 k = Some (Some u') ->
+    k <= u' /\ exists e', get t1 u' = Some e' /\ want t0 us0 k = Some (nocx e').
+  Proof.
+    intros Hk H1.
+    destruct (nth_error us0 k) as [[u|]|] eqn:E0.
+    - destruct (Hsome k u E0) as (u2 & U1 & U2).
+      rewrite H1 in U1. inversion U1; subst u2. clear U1.
+      assert (Hn : nth k us0 None = Some u).
+      { erewrite nth_error_nth; eauto. }
+      unfold want. rewrite Hn.
+      destruct U2 as [(A & ->)|(A & B & e & C & D)].
+      + split; auto. pose proof (Hopen k u E0) as Ho.
+        destruct (get t0 u) as [e|] eqn:Eg; [|congruence].
+        exists e. split; [eapply ext_some; eauto|reflexivity].
+      + split; [lia|]. exists (mkE (e_file e) true). split; auto.
+        rewrite C. reflexivity.
+    - apply Hnone in E0. congruence.
+    - apply nth_error_None in E0. lia.
+  Qed.
+
+  Lemma slot_none k : k < sc -> nth_error us1 k = Some None -> nth k us0 None = None.
+  Proof.
+    intros Hk H1.
+    destruct (nth_error us0 k) as [[u|]|] eqn:E0.
+    - destruct (Hsome k u E0) as (u2 & U1 & _). congruence.
+    - erewrite nth_error_nth; eauto.
+    - apply nth_error_None in E0. lia.
+  Qed.
+
+  Lemma step2_inv i u T : i < sc -> nth_error us1 i = Some u -> Inv i T ->
+    exists T', step2 sc i u T = Ok T' /\ Inv (S i) T'.
+  Proof.
+    intros Hi Hu [I1 I2]. unfold step2.
+    destruct u as [u'|].
+    - destruct (slot_some i u' Hi Hu) as (A & e' & B & C).
+      destruct (Nat.eqb_spec i u') as [<-|Hne].
+      + unfold set_cloexec. rewrite (I1 i) by lia. rewrite B.
+        eexists. split; [reflexivity|]. split.
+        * intros d Hd. rewrite get_set_other by lia. apply I1. lia.
+        * intros d Hd. destruct (Nat.eq_dec d i) as [->|Hd'].
+          -- rewrite get_set_same. symmetry. exact C.
+          -- rewrite get_set_other by lia. apply I2. lia.
+      + unfold dup2. rewrite (I1 u') by lia. rewrite B.
+        destruct (Nat.eqb_spec u' i) as [->|_]; [congruence|].
+        eexists. split; [reflexivity|]. split.
+        * intros d Hd. rewrite get_set_other by lia. apply I1. lia.
+        * intros d Hd. destruct (Nat.eq_dec d i) as [->|Hd'].
+          -- rewrite get_set_same. symmetry. exact C.
+          -- rewrite get_set_other by lia. apply I2. lia.
+    - pose proof (slot_none i Hi Hu) as Hn.
+      destruct (Nat.leb_spec 3 i) as [H3|H3].
+      + eexists. split; [reflexivity|]. split.
+        * intros d Hd. apply I1. lia.
+        * intros d Hd. destruct (Nat.eq_dec d i) as [->|Hd'].
+          -- rewrite (I1 i) by lia. rewrite (ext_low sc t0 t1 i Hext Hi).
+             unfold want. rewrite Hn. destruct (Nat.ltb_spec i 3); [lia|reflexivity].
+          -- apply I2. lia.
+      + assert (Hr : lowest_free (close T i) 0 = i).
+        { apply lowest_free_unique; [lia| |].
+          - rewrite get_close, Nat.eqb_refl. reflexivity.
+          - intros j Hj. rewrite get_close.
+            destruct (Nat.eqb_spec i j); [lia|].
+            rewrite (I2 j) by lia. apply want_low; lia. }
+        unfold open_, alloc. rewrite Hr. rewrite Nat.eqb_refl.
+        destruct (Nat.leb_spec sc i) as [Hs|Hs]; [lia|].
+        eexists. split; [reflexivity|]. split.
+        * intros d Hd. rewrite get_set_other by lia. rewrite get_close.
+          destruct (Nat.eqb_spec i d); [lia|]. apply I1. lia.
+        * intros d Hd. destruct (Nat.eq_dec d i) as [->|Hd'].
+          -- rewrite get_set_same. unfold want. rewrite Hn.
+             destruct (Nat.ltb_spec i 3); [reflexivity|lia].
+          -- rewrite get_set_other by lia. rewrite get_close.
+             destruct (Nat.eqb_spec i d); [lia|]. apply I2. lia.
+  Qed.
+
+  Lemma pass2_inv : forall todo i T,
+    i + length todo = sc ->
+    (forall k, k < length todo -> nth_error todo k = nth_error us1 (i + k)) ->
+    Inv i T ->
+    exists T', pass2 sc i todo T = Ok T' /\ Inv sc T'.
+  Proof.
+    induction todo as [|u rest IH]; intros i T Hl Hn HI; cbn [pass2].
+    - simpl in Hl. rewrite Nat.add_0_r in Hl. subst i. eauto.
+    - cbn [length] in Hl.
+      assert (Hu : nth_error us1 i = Some u).
+      { specialize (Hn 0). simpl in Hn. rewrite Nat.add_0_r in Hn. symmetry. apply Hn. lia. }
+      destruct (step2_inv i u T) as (T1 & E1 & I1); [lia|auto|auto|].
+      rewrite E1. apply IH; [lia| |auto].
+      intros k Hk. specialize (Hn (S k)). simpl in Hn.
+      rewrite Hn by lia. f_equal. lia.
+  Qed.
+End Pass2.
+
+(* ------------------------------------------------------------------ *)
+(* D. the child's table                                                 *)
+(* ------------------------------------------------------------------ *)
+Definition sources_open (t : tbl) (us : list (option nat)) : Prop :=
+  forall k u, nth_error us k = Some (Some u) -> get t u <> None.
+
+(* both passes succeed; the resulting table (before exec) *)
+Lemma shuffle_spec t0 us0 :
+  sources_open t0 us0 ->
+  exists t1 us1 T,
+    pass1 (length us0) 0 us0 t0 = Ok (t1, us1) /\
+    pass2 (length us0) 0 us1 t1 = Ok T /\
+    ext (length us0) t0 t1 /\
+    (forall d, length us0 <= d -> get T d = get t1 d) /\
+    (forall d, d < length us0 -> get T d = want t0 us0 d).
+Proof.
+  intros Ho. set (sc := length us0).
+  destruct (pass1_ok sc us0 0 t0) as (t1 & us1 & E1); [unfold sc; lia| |].
+  { intros k u Hk _. eapply Ho; eauto. }
+  pose proof (pass1_spec sc us0 0 t0 t1 us1 ltac:(unfold sc; lia) E1) as (X1 & X2 & X3 & X4).
+  destruct (pass2_inv sc t0 t1 us0 us1 eq_refl X2 X1 Ho X3) with (todo := us1) (i := 0) (T := t1)
+    as (T & E2 & I1 & I2).
+  - intros k u Hk. destruct (X4 k u Hk) as (u' & U1 & U2). exists u'. split; auto.
+  - simpl. auto.
+  - intros k Hk. reflexivity.
+  - split; [intros; reflexivity|intros; lia].
+  - exists t1, us1, T. repeat split; auto.
+Qed.
+
+Lemma exec_entry_nocx e : exec_entry (Some (nocx e)) = Some (nocx e).
+Proof. reflexivity. Qed.
+
+(* the table of the child after a successful exec *)
+Definition child_slot (t0 : tbl) (us0 : list (option nat)) (i : nat) : option entry :=
+  match nth i us0 None with
+  | Some u => option_map nocx (get t0 u)
+  | None => if i <? 3 then Some (mkE devnull false) else exec_entry (get t0 i)
+  end.
+
+Theorem child_fds t0 us0 :
+  sources_open t0 us0 ->
+  exists t', child_init us0 None t0 = CExec t' /\
+    (forall i, i < length us0 -> get t' i = child_slot t0 us0 i) /\
+    (forall d, length us0 <= d -> get t' d = exec_entry (get t0 d)).
+Proof.
+  intros Ho. destruct (shuffle_spec t0 us0 Ho) as (t1 & us1 & T & E1 & E2 & X & A & B).
+  unfold child_init. rewrite E1, E2. eexists. split; [reflexivity|]. split.
+  - intros i Hi. rewrite get_exec, (B i Hi). unfold want, child_slot.
+    destruct (nth i us0 None) as [u|].
+    + destruct (get t0 u); reflexivity.
+    + destruct (i <? 3); reflexivity.
+  - intros d Hd. rewrite get_exec, (A d Hd).
+    destruct (X d) as [E|(_ & N & f & E)]; rewrite E; [reflexivity|].
+    rewrite N. reflexivity.
 Qed.
